@@ -1,17 +1,15 @@
 /-
-C13, part 4 — the panic sites of the TSIG code (debug profile), and concrete witnesses.
+C13, part 4 — **no panic** (full strength, repaired code), the identity of the verified record,
+and kernel-checked witnesses.
 
-* `panic_sites`           — `verify_message_byte` can only panic at the three arithmetic /
-                            assertion sites listed in `Model/Tsig.lean` (the decoder it runs
-                            on never panics: `readName_no_panic`, `readRecords_no_panic`).
-* `no_panic_partial`      — it does not panic when ANCOUNT + NSCOUNT fits a u16, no TSIG sits
-                            among the first ARCOUNT − 1 additional records and time ≥ fudge.
-                            FULL STATEMENT (not provable, the three witnesses below refute it):
-                            `∀ sg buf prev first rdok s, verifyMessageByte … ≠ .panic s`.
-* `ex_time_lt_fudge`, `ex_count_overflow`, `ex_double_tsig` — kernel-checked inputs on which the
-  model (and, replayed from corpus/C13, the real code) panics.
-* `ex_unauthenticated_*`  — kernel-checked pairs of different messages with the same TBS: header
-  id, Z bit, CLASS and TTL of the TSIG RR, the MAC, trailing octets.
+* `no_panic`              — `∀ sg buf prev first rdok s, verifyMessageByte … ≠ .panic s`; likewise
+                            `signedBitmessageToBuf_no_panic`, `verifier_no_panic`, `serve_no_panic`
+                            (the decoder part: `readName_no_panic`, `readRecords_no_panic`).
+                            Before the repairs cdba272 / 46a3964 only a `_partial` version held.
+* `verified_record_is_request_signature`.
+* regression examples for the repaired items: `ex_time_lt_fudge_ok` (window saturates at 0),
+  `ex_count_overflow_err`, `ex_double_tsig_err`, `ex_z_authenticated`, `ex_class_ttl_rejected`.
+* `ex_unauthenticated_{id,mac,trailing}` — what is unauthenticated by design; `ex_authenticated_body`.
 -/
 import HickoryVerif.Model.Tsig
 import HickoryVerif.Proofs.C13
@@ -134,120 +132,68 @@ theorem readRecords_no_panic (buf : Bytes) (isAdd upd : Bool) :
     · simp
     · rename_i s' hs; exact absurd hs (readFrame_no_panic _ _ _)
 
-/-! ### the panic sites -/
+/-! ### the TSIG code never panics -/
 
-/-- `C13.DoubleTsig`: a TSIG among the first ARCOUNT − 1 additional records which is the last
-of them (so that `read_records` returns it instead of failing with `RecordAfterSig`) -/
-def DoubleTsig (buf : Bytes) (h : Hdr) (pos : Nat) : Prop :=
-  ∃ p1 x y p2 s z, readRecords buf false (h.opcode == 5) (h.an + h.ns) pos none none = .ok (p1, x, y) ∧
-    readRecords buf true (h.opcode == 5) (h.ar - 1) p1 none none = .ok (p2, some s, z)
-
-theorem locateSig_panic {buf : Bytes} {h : Hdr} {pos : Nat} {rdok : Bool} {s : String}
-    (hp : locateSig buf h pos rdok = .panic s) :
-    (s = "tsig:answers+authorities" ∧ CountOverflow h) ∨
-    (s = "tsig:debug_assert-sig" ∧ DoubleTsig buf h pos) := by
-  unfold locateSig at hp
-  split at hp
-  · rename_i hov
-    simp only [Outcome.panic.injEq] at hp
-    exact .inl ⟨hp.symm, hov⟩
-  · split at hp
-    · simp at hp
-    · split at hp
-      · rename_i p1 x y h1
-        split at hp
-        · rename_i p2 sig2 z h2
-          split at hp
-          · rename_i hsome
-            simp only [Outcome.panic.injEq] at hp
-            cases sig2 with
-            | none => simp at hsome
-            | some s2 => exact .inr ⟨hp.symm, p1, x, y, p2, s2, z, h1, h2⟩
-          · split at hp
-            · simp at hp
-            · simp at hp
-            · simp at hp
-            · rename_i s' hs; exact absurd hs (readRecords_no_panic _ _ _ _ _ _ _ _)
-        · simp at hp
-        · rename_i s' hs; exact absurd hs (readRecords_no_panic _ _ _ _ _ _ _ _)
-      · simp at hp
+theorem locateSig_no_panic (buf : Bytes) (h : Hdr) (pos : Nat) (rdok : Bool) (s : String) :
+    locateSig buf h pos rdok ≠ .panic s := by
+  unfold locateSig
+  split
+  · simp
+  · split
+    · split
+      · split
+        · simp
+        · split
+          · split <;> simp
+          · simp
+          · simp
+          · rename_i s' hs; exact absurd hs (readRecords_no_panic _ _ _ _ _ _ _ _)
+      · simp
       · rename_i s' hs; exact absurd hs (readRecords_no_panic _ _ _ _ _ _ _ _)
+    · simp
+    · rename_i s' hs; exact absurd hs (readRecords_no_panic _ _ _ _ _ _ _ _)
 
-theorem signed_panic {buf : Bytes} {prev : Option Bytes} {first rdok : Bool} {s : String}
-    (hp : signedBitmessageToBuf buf prev first rdok = .panic s) :
-    ∃ h pos, readHdr buf = some h ∧ skipQueries buf h.qd 12 = .ok pos ∧
-      ((s = "tsig:answers+authorities" ∧ CountOverflow h) ∨
-       (s = "tsig:debug_assert-sig" ∧ DoubleTsig buf h pos)) := by
-  unfold signedBitmessageToBuf at hp
-  split at hp
-  · simp at hp
-  · rename_i h hh
-    split at hp
-    · simp at hp
-    · split at hp
-      · rename_i pos hq
-        split at hp
-        · simp at hp
-        · simp at hp
-        · rename_i m hm
-          simp only [Outcome.panic.injEq] at hp; subst hp
-          exact ⟨h, pos, hh, hq, locateSig_panic hm⟩
-      · simp at hp
+theorem signedBitmessageToBuf_no_panic (buf : Bytes) (prev : Option Bytes) (first rdok : Bool)
+    (s : String) : signedBitmessageToBuf buf prev first rdok ≠ .panic s := by
+  unfold signedBitmessageToBuf
+  split
+  · simp
+  · split
+    · simp
+    · split
+      · split
+        · simp
+        · simp
+        · rename_i m hm; exact absurd hm (locateSig_no_panic _ _ _ _ _)
+      · simp
       · rename_i s' hs; exact absurd hs (skipQueries_no_panic _ _ _ _)
 
-/-- **The only panic sites of `verify_message_byte`** (hence of `authorized_tsig` and of
-`TSigVerifier::verify` up to their final re-parse): the u16 addition of two section counts, the
-debug assertion after the first ARCOUNT − 1 additional records, and `time − fudge`. -/
-theorem panic_sites {sg : Signer} {buf : Bytes} {prev : Option Bytes} {first rdok : Bool}
-    {s : String} (hp : verifyMessageByte sg buf prev first rdok = .panic s) :
-    s = "tsig:answers+authorities" ∨ s = "tsig:debug_assert-sig" ∨ s = "tsig:time-fudge" := by
-  unfold verifyMessageByte at hp
-  split at hp
-  · split at hp
-    · simp at hp
-    · split at hp
-      · simp at hp
-      · split at hp
-        · simp at hp
-        · split at hp
-          · simp only [Outcome.panic.injEq] at hp; exact .inr (.inr hp.symm)
-          · simp at hp
-  · simp at hp
-  · rename_i m hm
-    simp only [Outcome.panic.injEq] at hp; subst hp
-    obtain ⟨_, _, _, _, h | h⟩ := signed_panic hm
-    · exact .inl h.1
-    · exact .inr (.inl h.1)
+/-- **No request or reply content makes `verify_message_byte` panic** — full strength, for all
+signers, byte strings, chaining states and parse summaries. -/
+theorem no_panic (sg : Signer) (buf : Bytes) (prev : Option Bytes) (first rdok : Bool)
+    (s : String) : verifyMessageByte sg buf prev first rdok ≠ .panic s := by
+  unfold verifyMessageByte
+  split
+  · split
+    · simp
+    · split
+      · simp
+      · split <;> simp
+  · simp
+  · rename_i m hm; exact absurd hm (signedBitmessageToBuf_no_panic _ _ _ _ _)
 
-/-- No panic outside the three recorded classes.
-(The full statement `∀ inputs, verifyMessageByte … ≠ .panic s` is refuted by the witnesses
-below.) -/
-theorem no_panic_partial {sg : Signer} {buf : Bytes} {prev : Option Bytes} {first rdok : Bool}
-    (hov : ∀ h, readHdr buf = some h → ¬ CountOverflow h)
-    (hdt : ∀ h pos, readHdr buf = some h → skipQueries buf h.qd 12 = .ok pos →
-      ¬ DoubleTsig buf h pos)
-    (htf : ∀ t r, signedBitmessageToBuf buf prev first rdok = .ok (t, r) → ¬ TimeLtFudge r.data) :
-    ∀ s, verifyMessageByte sg buf prev first rdok ≠ .panic s := by
-  intro s hp
-  unfold verifyMessageByte at hp
-  split at hp
-  · rename_i t r hs
-    split at hp
-    · simp at hp
-    · split at hp
-      · simp at hp
-      · split at hp
-        · simp at hp
-        · split at hp
-          · rename_i hlt; exact htf t r hs hlt
-          · simp at hp
-  · simp at hp
-  · rename_i m hm
-    obtain ⟨h, pos, hh, hq, hc | hc⟩ := signed_panic hm
-    · exact hov h hh hc.2
-    · exact hdt h pos hh hq hc.2
+/-- `TSigVerifier::verify` never panics -/
+theorem verifier_no_panic (v : Verifier) (buf : Bytes) (rdok parseOK : Bool) (s : String) :
+    v.verify buf rdok parseOK ≠ .panic s := by
+  unfold Verifier.verify
+  split
+  · split
+    · split <;> simp
+    · simp
+  · simp
+  · rename_i m hm; exact absurd hm (no_panic _ _ _ _ _ _)
 
-/-! ### on the server path only `time − fudge` is reachable -/
+/-! ### facts about `read_records` and `Request::from_bytes` -/
 
 theorem readRecords_append (buf : Bytes) (isAdd upd : Bool) (k₂ : Nat) :
     ∀ k₁ pos sig edns, readRecords buf isAdd upd (k₁ + k₂) pos sig edns =
@@ -407,73 +353,47 @@ theorem parseRequest_sections {buf : Bytes} {rdok : Bool} {req : Req}
       · simp at h
       · simp at h
 
-/-- **On the server path the only reachable panic is `time − fudge`.**  Once
-`Request::from_bytes` has accepted a message of at most 65 535 octets, `ANCOUNT + NSCOUNT`
-cannot overflow (every record takes ≥ 11 octets) and no TSIG can precede the last record
-(`RecordAfterSig`), so `verify_message_byte` on the same bytes can only panic on
-`time < fudge` — which requires a MAC made with the configured key. -/
-theorem server_panic_only_time_fudge {sg : Signer} {buf : Bytes} {rdok : Bool} {req : Req}
-    {s : String} (hlen : buf.length ≤ 65535) (hreq : parseRequest buf rdok = .ok req)
-    (hp : verifyMessageByte sg buf none true rdok = .panic s) :
-    s = "tsig:time-fudge" ∧ ∃ t r, signedBitmessageToBuf buf none true rdok = .ok (t, r) ∧
-      sg.macOK t r.data.mac = true ∧ TimeLtFudge r.data := by
-  obtain ⟨hh, hqd, pos, p1, p2, p3, sgr, ed, _, _, hq, h1, h2, h3, _, _⟩ :=
-    parseRequest_sections hreq
-  unfold verifyMessageByte at hp
-  split at hp
-  · rename_i t r hs
-    split at hp
-    · simp at hp
-    · split at hp
-      · simp at hp
-      · split at hp
-        · simp at hp
-        · rename_i hmac
-          split at hp
-          · rename_i hlt
-            simp only [Outcome.panic.injEq] at hp
-            exact ⟨hp.symm, t, r, hs, by simpa using hmac, hlt⟩
-          · simp at hp
-  · simp at hp
-  · rename_i m hm
-    exfalso
-    obtain ⟨h, pos', hh', hq', hc | hc⟩ := signed_panic hm
-    · -- ANCOUNT + NSCOUNT ≤ 65535
-      rw [hh] at hh'; cases hh'
-      have l1 := readRecords_len _ _ _ _ _ _ _ _ _ _ h1
-      have l2 := readRecords_len _ _ _ _ _ _ _ _ _ _ h2
-      have := hc.2
-      unfold CountOverflow at this
-      rcases l2.2 with z | z
-      · rcases l1.2 with z1 | z1
-        · omega
-        · have := l1.1; omega
-      · have := l1.1; have := l2.1; omega
-    · -- no TSIG before the last additional record
-      rw [hh] at hh'; cases hh'
-      rw [hq] at hq'; cases hq'
-      obtain ⟨_, q1, x, y, q2, s2, z, g1, g2⟩ := hc
-      have a := readRecords_append buf false (req.hdr.opcode == 5) req.hdr.ns req.hdr.an pos none none
-      rw [h1] at a; simp only at a; rw [h2] at a
-      rw [a] at g1
-      simp only [Outcome.ok.injEq, Prod.mk.injEq] at g1
-      obtain ⟨rfl, _, _⟩ := g1
-      by_cases har : req.hdr.ar = 0
-      · rw [har] at g2; simp [readRecords] at g2
-      · have e : req.hdr.ar = (req.hdr.ar - 1) + 1 := by omega
-        rw [e, readRecords_append, g2] at h3
-        simp only at h3
-        rw [readRecords] at h3
-        split at h3
-        · split at h3
-          · split at h3
-            · rename_i hstep
-              simp [recStep] at hstep
-            · simp at h3
-          · simp at h3
-          · simp at h3
-        · simp at h3
-        · simp at h3
+theorem authorizedTsig_no_panic (cfg : ZoneCfg) (tsig : SigRec) (buf : Bytes) (now : Nat)
+    (rdok : Bool) (s : String) : authorizedTsig cfg tsig buf now rdok ≠ .panic s := by
+  unfold authorizedTsig
+  split
+  · simp
+  · split
+    · split <;> simp
+    · simp
+    · rename_i m hm; exact absurd hm (no_panic _ _ _ _ _ _)
+
+/-- **The server path never panics** on any request bytes, configuration or clock value (as far
+as it is modelled: parse, dispatch, authorisation). -/
+theorem serve_no_panic (cfg : ZoneCfg) (buf : Bytes) (now : Nat) (rdok : Bool) (s : String) :
+    serve cfg buf now rdok ≠ .panic s := by
+  unfold serve
+  split
+  · simp
+  · rename_i m hm; exact absurd hm (parseRequest_no_panic _ _ _)
+  · split
+    · simp
+    · split
+      · simp
+      · simp
+      · rename_i m hm
+        unfold authorizeUpdate at hm
+        split at hm
+        · simp at hm
+        · split at hm
+          · exact absurd hm (authorizedTsig_no_panic _ _ _ _ _ _)
+          · simp at hm
+    · split
+      · simp
+      · simp
+      · rename_i m hm
+        unfold authorizeAxfr at hm
+        split at hm
+        · simp at hm
+        · simp at hm
+        · split at hm
+          · exact absurd hm (authorizedTsig_no_panic _ _ _ _ _ _)
+          · simp at hm
 
 /-! ### the record whose MAC is verified is `request.signature()` -/
 
@@ -487,27 +407,27 @@ theorem locateSig_reads {buf : Bytes} {h : Hdr} {pos : Nat} {rdok : Bool} {s : S
   split at hl
   · simp at hl
   · split at hl
-    · simp at hl
-    · split at hl
-      · rename_i p1 x y h1
+    · rename_i p1 x y h1
+      split at hl
+      · rename_i p2 sig2 z h2
         split at hl
-        · rename_i p2 sig2 z h2
+        · simp at hl
+        · rename_i hn
+          have : sig2 = none := by cases sig2 <;> simp_all
+          subst this
           split at hl
-          · simp at hl
-          · rename_i hn
-            have : sig2 = none := by cases sig2 <;> simp_all
-            subst this
+          · rename_i q s' e h3
             split at hl
-            · rename_i q s' e h3
-              simp only [Outcome.ok.injEq] at hl; subst hl
+            · simp at hl
+            · simp only [Outcome.ok.injEq] at hl; subst hl
               exact ⟨p1, x, y, p2, z, q, e, h1, h2, h3⟩
-            · simp at hl
-            · simp at hl
-            · simp at hl
-        · simp at hl
-        · simp at hl
+          · simp at hl
+          · simp at hl
+          · simp at hl
       · simp at hl
       · simp at hl
+    · simp at hl
+    · simp at hl
 
 /-- one `read_records` step from `sig = None`: the TSIG it returns does not depend on the EDNS
 state it was started with -/
@@ -632,40 +552,35 @@ def mac32 : Bytes := List.replicate 32 170
 def sgYes : Signer := { name := Name.root, alg := 256, fudge := 300, macOK := fun _ _ => true }
 
 macro "eval_tsig" : tactic => `(tactic|
-  simp [msg, tsigRR, mac32, sgYes, verifyMessageByte, signedBitmessageToBuf, tbsOf, readHdr, rd16,
+  simp [msg, tsigRR, mac32, sgYes, verifyMessageByte, signedBitmessageToBuf, tbsOf, hdrDigest, readHdr, rd16,
     rd32, skipQueries, readQuery, locateSig, readRecords, readFrame, tsigOf, readTsigData, recStep,
     Hdr.opcode, Name.isRoot, Frame.rdEnd, Name.readName, Name.readLabels, Name.extendName, Name.new,
     Name.encodedLen, Name.dataLen, Name.MAX_LENGTH, Name.len, Name.root, Name.eq, Name.cmpWithF,
-    Name.cmpLabels, Name.cmpRev, algIs, algLabel, outLen, emitHdr, be16, be32, be48, reB2, reB3,
+    Name.cmpLabels, Name.cmpRev, algIs, algLabel, outLen, be16, be32, be48,
     tsigVars, lowerWire, Name.wire, Name.toLowercase, Name.lowerLabel, Name.lowerByte,
     Name.emitLabel, prevPart])
 
 set_option maxRecDepth 8000
 
-/-- **Finding `C13.TimeLtFudge`.**  A correctly MAC'ed request whose time signed (5) is smaller
-than its fudge (9): `tsig.time - tsig.fudge as u64` panics in the debug profile. -/
-theorem ex_time_lt_fudge :
+/-- Regression (`C13.TimeLtFudge`, fixed cdba272).  A correctly MAC'ed request whose time signed
+(5) is smaller than its fudge (9) used to panic on `time − fudge`; the window now saturates at 0:
+`[0, 14)`. -/
+theorem ex_time_lt_fudge_ok :
     verifyMessageByte sgYes (msg 1 0 1 [] (tsigRR 255 0 5 9 mac32) []) none true true
-      = .panic "tsig:time-fudge" := by eval_tsig
+      = .ok { mac := mac32, time := 5, lo := 0, hi := 14 } := by eval_tsig
 
-/-- with time ≥ fudge the same request verifies (the hypothesis of `no_panic_partial` is
-satisfiable) -/
-example : (verifyMessageByte sgYes (msg 1 0 1 [] (tsigRR 255 0 9 5 mac32) []) none true true).isOk
-    = true := by eval_tsig; rfl
+/-- Regression (`C13.CountOverflow`, fixed 46a3964).  ANCOUNT = 0xFFFF, NSCOUNT = 1, ARCOUNT = 1 in
+twelve octets: an error (there are no 65 536 records), no longer an overflow panic. -/
+theorem ex_count_overflow_err :
+    signedBitmessageToBuf [0, 0, 0, 0, 0, 0, 255, 255, 0, 1, 0, 1] none true true = .err := by
+  simp [signedBitmessageToBuf, readHdr, rd16, skipQueries, locateSig, readRecords, readFrame,
+    Name.readName, Name.readLabels]
 
-/-- **Finding `C13.CountOverflow`.**  Twelve octets suffice: ANCOUNT = 0xFFFF, NSCOUNT = 1,
-ARCOUNT = 1 — `counts.answers + counts.authorities` overflows `u16`. -/
-theorem ex_count_overflow :
-    signedBitmessageToBuf [0, 0, 0, 0, 0, 0, 255, 255, 0, 1, 0, 1] none true true
-      = .panic "tsig:answers+authorities" := by
-  simp [signedBitmessageToBuf, readHdr, rd16, skipQueries, locateSig]
-
-/-- **Finding `C13.DoubleTsig`.**  Two TSIG RRs at the end, ARCOUNT = 2: the first one is returned
-by the `read_records` call for the first ARCOUNT − 1 records and trips
-`debug_assert!(sig.is_none())`. -/
-theorem ex_double_tsig :
+/-- Regression (`C13.DoubleTsig`, fixed 46a3964).  Two TSIG RRs at the end, ARCOUNT = 2: an error,
+no longer a failed `debug_assert!`. -/
+theorem ex_double_tsig_err :
     signedBitmessageToBuf (msg 1 0 2 (tsigRR 255 0 9 5 []) (tsigRR 255 0 9 5 []) []) none true true
-      = .panic "tsig:debug_assert-sig" := by eval_tsig
+      = .err := by eval_tsig
 
 /-- the to-be-signed bytes of a message, if any -/
 def tbsBytes (b : Bytes) : Option Bytes :=
@@ -682,21 +597,25 @@ def refTbs : Bytes :=
 theorem ex_ref : tbsBytes (msg 1 0 1 [] (tsigRR 255 0 9 5 mac32) []) = some refTbs := by
   simp only [tbsBytes, refTbs]; eval_tsig
 
-/-- not authenticated: the header id (the Original ID of the TSIG RDATA is used instead) -/
+/-- not authenticated, by design: the wire header id (the Original ID of the TSIG RDATA is
+digested instead) -/
 theorem ex_unauthenticated_id :
     tbsBytes (msg 2 0 1 [] (tsigRR 255 0 9 5 mac32) []) = some refTbs := by
   simp only [tbsBytes, refTbs]; eval_tsig
 
-/-- not authenticated: the Z bit of the header — **finding `C13.ZBitUnauthenticated`** -/
-theorem ex_unauthenticated_z :
-    tbsBytes (msg 1 64 1 [] (tsigRR 255 0 9 5 mac32) []) = some refTbs := by
+/-- Regression (`C13.ZBitUnauthenticated`, fixed 84e713d): the Z bit of the header is digested as
+received — flipping it changes the TBS. -/
+theorem ex_z_authenticated :
+    tbsBytes (msg 1 64 1 [] (tsigRR 255 0 9 5 mac32) []) ≠ some refTbs ∧
+    (tbsBytes (msg 1 64 1 [] (tsigRR 255 0 9 5 mac32) [])).isSome = true := by
   simp only [tbsBytes, refTbs]; eval_tsig
 
-/-- not authenticated (and not checked): CLASS and TTL of the TSIG RR — **finding
-`C13.TsigClassTtlUnchecked`** -/
-theorem ex_unauthenticated_class_ttl :
-    tbsBytes (msg 1 0 1 [] (tsigRR 1 77 9 5 mac32) []) = some refTbs := by
-  simp only [tbsBytes, refTbs]; eval_tsig
+/-- Regression (`C13.TsigClassTtlUnchecked`, fixed 84e713d): a TSIG RR whose CLASS is not ANY or
+whose TTL is not 0 is rejected before any MAC is looked at. -/
+theorem ex_class_ttl_rejected :
+    tbsBytes (msg 1 0 1 [] (tsigRR 1 0 9 5 mac32) []) = none ∧
+    tbsBytes (msg 1 0 1 [] (tsigRR 255 77 9 5 mac32) []) = none := by
+  simp only [tbsBytes]; constructor <;> eval_tsig
 
 /-- not part of the TBS: the MAC itself and its length field (they are what the TBS is compared
 against) -/
